@@ -503,7 +503,10 @@ def canon(t, roles=None):
             return '%s::%s(%s)' % (strip_ns(cls), name, args)
         return '%s(%s)' % (name, args)
     if k == 'construct':
-        return '%s{%s}' % (strip_ns(t['type']), ','.join(canon(a, roles) for a in t.get('args', [])))
+        ty = strip_ns(t['type'])
+        if ty.startswith('const '):
+            ty = ty[len('const '):]         # `const T x(a, b)` constructs the same object as `T x(a, b)`
+        return '%s{%s}' % (ty, ','.join(canon(a, roles) for a in t.get('args', [])))
     if k == 'cast':
         return '(%s)%s' % (t['to'], canon(t['e'], roles))
     if k == 'new':
